@@ -72,6 +72,7 @@ func c27(p *core.Program, r *core.Report) {
 	r.Rule("R3", "field coverage symmetry: for every pilosa struct with an encodeX/decodeX pair in encoding/proto, every exported field is read by the encoder and filled by the decoder from the wire message (frozen exceptions: one field + reason)")
 	r.Rule("R4", "nil-safe decoding: a decode function that dereferences its wire-message parameter is never handed a singular nested message field (nil when absent from the bytes) unless the callee starts with a nil guard or the call is under a non-nil test; no direct dereference chain through such a field")
 	r.Rule("R5", "decoders reject instead of panicking: no decode* function in encoding/proto calls panic, and none indexes a repeated wire field with a constant without first testing its length")
+	r.Rule("R6", "codecs are projections: in encoding/proto a decoder fills field F of a pilosa struct only from the wire field of the same name (and an encoder fills wire field G only from the pilosa field of the same name), directly, through a conversion or through a nested decode/encode call; conditions guarding such an assignment may mention only that same field. Renames are a frozen table. A value computed from other fields, or two fields crossed, does not survive a round trip")
 	r.NotDecided = "value equality of round trips for all generated values (protobuf wire semantics, nil vs empty slices); that generated Unmarshal code rejects all malformed bytes"
 	pk := p.Pkg("")
 	pp := p.Pkg("encoding/proto")
@@ -84,6 +85,7 @@ func c27(p *core.Program, r *core.Report) {
 	c27R3(p, r, pk, pp)
 	c27R4(p, r, pp)
 	c27R5(p, r, pp)
+	c27R6(p, r, pp)
 }
 
 func setDiff(a, b map[string]bool) []string {
@@ -792,4 +794,311 @@ func c27R5(p *core.Program, r *core.Report, pp *packages.Package) {
 		}
 	}
 	r.Floor("C27/R5 decode functions", n, 50)
+}
+
+// frozen renames for R6: "<pilosa struct>.<field>" -> wire field name
+var c27Renames = map[string]string{
+	"FieldInfo.Options":   "Meta",
+	"NodeEvent.Event":     "Event",
+	"QueryResponse.Err":   "Err",
+	"IndexOptions.Keys":   "Keys",
+	"CreateIndexMessage.Meta": "Meta",
+}
+
+func c27R6(p *core.Program, r *core.Report, pp *packages.Package) {
+	info := pp.TypesInfo
+	isInternal := func(t types.Type) bool {
+		if sl, ok := t.Underlying().(*types.Slice); ok {
+			t = sl.Elem()
+		}
+		n := core.NamedOf(t)
+		return n != nil && n.Obj().Pkg() != nil && n.Obj().Pkg().Path() == internalPath
+	}
+	isPilosa := func(t types.Type) (string, bool) {
+		n := core.NamedOf(t)
+		if n == nil || n.Obj().Pkg() == nil || n.Obj().Pkg().Path() != core.ModPath {
+			return "", false
+		}
+		if _, ok := n.Underlying().(*types.Struct); !ok {
+			return "", false
+		}
+		return n.Obj().Name(), true
+	}
+	nAssign := 0
+	for _, fd := range core.AllFuncDecls(pp) {
+		if fd.Body == nil || fd.Recv != nil {
+			continue
+		}
+		dec := strings.HasPrefix(fd.Name.Name, "decode")
+		enc := strings.HasPrefix(fd.Name.Name, "encode")
+		if !dec && !enc {
+			continue
+		}
+		// srcFields(e): names of fields selected on "source side" values inside e, through locals
+		srcSide := func(t types.Type) bool {
+			if dec {
+				return isInternal(t)
+			}
+			_, ok := isPilosa(t)
+			return ok
+		}
+		localSrc := map[types.Object]map[string]bool{}
+		rangeLocal := map[types.Object]bool{}
+		// parameters of the function
+		params := map[types.Object]bool{}
+		for _, fl := range fd.Type.Params.List {
+			for _, nm := range fl.Names {
+				params[info.ObjectOf(nm)] = true
+			}
+		}
+		var srcFields func(e ast.Node) map[string]bool
+		srcFields = func(e ast.Node) map[string]bool {
+			out := map[string]bool{}
+			ast.Inspect(e, func(n ast.Node) bool {
+				switch x := n.(type) {
+				case *ast.SelectorExpr:
+					s, ok := info.Selections[x]
+					if !ok || s.Kind() != types.FieldVal {
+						return true
+					}
+					// walk to the base identifier, remembering the first field hop
+					first := x.Sel.Name
+					firstRecv := s.Recv()
+					var cur ast.Expr = x.X
+					for {
+						switch y := ast.Unparen(cur).(type) {
+						case *ast.SelectorExpr:
+							if s2, ok := info.Selections[y]; ok && s2.Kind() == types.FieldVal {
+								first, firstRecv = y.Sel.Name, s2.Recv()
+							}
+							cur = y.X
+							continue
+						case *ast.IndexExpr:
+							cur = y.X
+							continue
+						case *ast.StarExpr:
+							cur = y.X
+							continue
+						case *ast.Ident:
+							o := info.ObjectOf(y)
+							if params[o] {
+								if srcSide(firstRecv) {
+									out[first] = true
+								}
+							} else {
+								for k := range localSrc[o] {
+									out[k] = true
+								}
+							}
+						}
+						break
+					}
+					return false
+				case *ast.Ident:
+					for k := range localSrc[info.ObjectOf(x)] {
+						out[k] = true
+					}
+				}
+				return true
+			})
+			return out
+		}
+		for pass := 0; pass < 3; pass++ {
+			ast.Inspect(fd.Body, func(n ast.Node) bool {
+				switch x := n.(type) {
+				case *ast.AssignStmt:
+					if len(x.Lhs) == len(x.Rhs) {
+						for i, l := range x.Lhs {
+							le := ast.Unparen(l)
+							if ix, ok := le.(*ast.IndexExpr); ok {
+								le = ast.Unparen(ix.X)
+							}
+							if id, ok := le.(*ast.Ident); ok {
+								if fs := srcFields(x.Rhs[i]); len(fs) > 0 {
+									o := info.ObjectOf(id)
+									if localSrc[o] == nil {
+										localSrc[o] = map[string]bool{}
+									}
+									for k := range fs {
+										localSrc[o][k] = true
+									}
+								}
+							}
+						}
+					}
+				case *ast.RangeStmt:
+					if fs := srcFields(x.X); len(fs) > 0 {
+						for _, e := range []ast.Expr{x.Key, x.Value} {
+							if id, ok := e.(*ast.Ident); ok && id.Name != "_" {
+								o := info.ObjectOf(id)
+								rangeLocal[o] = true
+								if localSrc[o] == nil {
+									localSrc[o] = map[string]bool{}
+								}
+								for k := range fs {
+									localSrc[o][k] = true
+								}
+							}
+						}
+					}
+				}
+				return true
+			})
+		}
+		parents := parentMap(fd.Body)
+		type asg struct {
+			key string
+			at  ast.Node
+		}
+		var asgs []asg
+		check := func(owner, field string, rhs ast.Expr, at ast.Node) {
+			fs := srcFields(rhs)
+			if len(fs) == 0 {
+				return
+			}
+			// element-level restructuring: the value is built only from the
+			// loop variables of a range over a collection field
+			onlyRange, anyIdent := true, false
+			ast.Inspect(rhs, func(n ast.Node) bool {
+				if id, ok := n.(*ast.Ident); ok {
+					o := info.ObjectOf(id)
+					if _, isVar := o.(*types.Var); isVar && (params[o] || len(localSrc[o]) > 0) {
+						anyIdent = true
+						if !rangeLocal[o] {
+							onlyRange = false
+						}
+					}
+				}
+				return true
+			})
+			if anyIdent && onlyRange {
+				return
+			}
+			nAssign++
+			allowed := map[string]bool{field: true}
+			if rn, ok := c27Renames[owner+"."+field]; ok {
+				allowed[rn] = true
+			}
+			if dec {
+				if rn, ok := c27Renames[owner+"."+field]; ok {
+					allowed[rn] = true
+				}
+			} else {
+				// encoder: wire field G filled from pilosa field F; renames are keyed by the pilosa side
+				for k, v := range c27Renames {
+					if v == field {
+						allowed[k[strings.Index(k, ".")+1:]] = true
+					}
+				}
+			}
+			var extra []string
+			for k := range fs {
+				if !allowed[k] {
+					extra = append(extra, k)
+				}
+			}
+			sort.Strings(extra)
+			construct := fd.Name.Name + ": " + owner + "." + field
+			if len(extra) > 0 {
+				r.Violate("R6", construct, p.Pos(at.Pos()), "field "+field+" is computed from "+strings.Join(extra, ", ")+" rather than projected from the field of the same name: the value changes in transit")
+			} else {
+				r.HoldAt("R6", construct, p.Pos(at.Pos()), "projection of the same-named field")
+			}
+		}
+		ast.Inspect(fd.Body, func(n ast.Node) bool {
+			switch x := n.(type) {
+			case *ast.AssignStmt:
+				if !dec || len(x.Lhs) != len(x.Rhs) {
+					return true
+				}
+				for i, l := range x.Lhs {
+					sel, ok := ast.Unparen(l).(*ast.SelectorExpr)
+					if !ok {
+						continue
+					}
+					s, ok := info.Selections[sel]
+					if !ok || s.Kind() != types.FieldVal {
+						continue
+					}
+					if owner, ok := isPilosa(s.Recv()); ok {
+						check(owner, sel.Sel.Name, x.Rhs[i], x)
+						asgs = append(asgs, asg{types.ExprString(sel), x})
+					}
+				}
+			case *ast.CompositeLit:
+				t := info.TypeOf(x)
+				if t == nil {
+					return true
+				}
+				owner, isP := isPilosa(t)
+				if dec && isP {
+					for _, el := range x.Elts {
+						if kv, ok := el.(*ast.KeyValueExpr); ok {
+							if id, ok := kv.Key.(*ast.Ident); ok {
+								check(owner, id.Name, kv.Value, kv)
+							}
+						}
+					}
+				}
+				if enc && isInternal(t) {
+					n := core.NamedOf(t)
+					for _, el := range x.Elts {
+						if kv, ok := el.(*ast.KeyValueExpr); ok {
+							if id, ok := kv.Key.(*ast.Ident); ok {
+								check(n.Obj().Name(), id.Name, kv.Value, kv)
+							}
+						}
+					}
+				}
+			}
+			return true
+		})
+		// a decoded field must not be assigned again (overwritten) outside a
+		// mutually exclusive branch
+		branchOf := func(n ast.Node) map[*ast.IfStmt]int {
+			out := map[*ast.IfStmt]int{}
+			var child ast.Node = n
+			for q := parents[n]; q != nil; child, q = q, parents[q] {
+				if ifs, ok := q.(*ast.IfStmt); ok {
+					if child == ast.Node(ifs.Body) {
+						out[ifs] = 1
+					} else if child == ifs.Else {
+						out[ifs] = 2
+					}
+				}
+			}
+			return out
+		}
+		for i := 0; i < len(asgs); i++ {
+			for j := i + 1; j < len(asgs); j++ {
+				if asgs[i].key != asgs[j].key {
+					continue
+				}
+				bi, bj := branchOf(asgs[i].at), branchOf(asgs[j].at)
+				exclusive := false
+				for ifs, side := range bi {
+					if s2, ok := bj[ifs]; ok && s2 != side {
+						exclusive = true
+					}
+				}
+				// else-if chains: the second assignment sits in an if that is the Else of the first's if
+				for ifs := range bj {
+					for ifs1, side := range bi {
+						if side == 1 && ifs1.Else == ast.Stmt(ifs) {
+							exclusive = true
+						}
+					}
+				}
+				if as2, ok := asgs[j].at.(*ast.AssignStmt); ok && len(as2.Rhs) == 1 {
+					if c, ok := ast.Unparen(as2.Rhs[0]).(*ast.CallExpr); ok && core.BuiltinName(info, c) == "append" && len(c.Args) > 0 && types.ExprString(ast.Unparen(c.Args[0])) == asgs[j].key {
+						exclusive = true // accumulate idiom: x = append(x, ...)
+					}
+				}
+				if !exclusive {
+					r.Violate("R6", fd.Name.Name+": "+asgs[j].key+" reassigned", p.Pos(asgs[j].at.Pos()), "the decoded field "+asgs[j].key+" is assigned again after it was filled from the wire: the decoded value differs from what was encoded")
+				}
+			}
+		}
+	}
+	r.Floor("C27/R6 field projections examined", nAssign, 120)
 }
